@@ -272,6 +272,13 @@ def _compare(ctx, p, rng):
                 s = float(np.median(a[0])) if a[0].size else 0.0
                 _t(ctx, lambda: op(X, s)); _t(ctx, lambda: op(s, X))
                 _t(ctx, lambda: op(X, b[0, 0])); _t(ctx, lambda: op(X, np.float64(s)))
+    # selections between polynomials of which one has infinite base values (an open bound): NumPy returns the finite operand
+    for shape in [(3,), (2, 2)]:
+        a = gen.series_data(rng, D, P, shape, 'R', 'random', False, 1.0); b = gen.series_data(rng, D, P, shape, 'R', 'random', False, 1.0)
+        a[0].reshape(P, -1)[:, 0] = np.inf; b[0].reshape(P, -1)[:, -1] = -np.inf
+        with np.errstate(all='ignore'):
+            _t(ctx, lambda: algopy.minimum(UTPM(a.copy()), UTPM(b.copy()))); _t(ctx, lambda: algopy.maximum(UTPM(a.copy()), UTPM(b.copy())))
+            _t(ctx, lambda: algopy.minimum(UTPM(b.copy()), UTPM(a.copy()))); _t(ctx, lambda: algopy.maximum(UTPM(b.copy()), UTPM(a.copy())))
     # operands of different but broadcastable shapes (a matrix against one of its rows / columns, P directions against a constant
     # polynomial with one direction): NumPy compares the broadcast elements
     for (sa, sb) in [((3, 4), (1, 4)), ((3, 4), (4,)), ((3, 2), (3, 1)), ((2, 3), ())]:
@@ -495,6 +502,15 @@ def _plain(ctx, p, rng):
         ('fft', lambda: algopy.fft.fft(B, axis=0), lambda: np.fft.fft(B, axis=0)), ('ifft', lambda: algopy.fft.ifft(v), lambda: np.fft.ifft(v)),
         ('zeros', lambda: algopy.zeros((2, 3), dtype=float), lambda: np.zeros((2, 3), dtype=float)), ('ones', lambda: algopy.ones(3, dtype=v), lambda: np.ones(3, dtype=v.dtype)),
         ('zeros_like', lambda: algopy.zeros_like(B), lambda: np.zeros_like(B)), ('ones_like', lambda: algopy.ones_like(B), lambda: np.ones_like(B)),
+        # the dtype argument in the spellings NumPy accepts
+        ('zeros:dtype-str', lambda: algopy.zeros((2, 3), dtype='float32'), lambda: np.zeros((2, 3), dtype='float32')),
+        ('ones:dtype-str', lambda: algopy.ones(3, dtype='complex64'), lambda: np.ones(3, dtype='complex64')),
+        ('zeros:dtype-object', lambda: algopy.zeros(2, dtype=np.dtype('int16')), lambda: np.zeros(2, dtype=np.dtype('int16'))),
+        ('ones:dtype-object', lambda: algopy.ones((1, 2), dtype=np.dtype('float64')), lambda: np.ones((1, 2), dtype=np.dtype('float64'))),
+        ('zeros:dtype-numpy-type', lambda: algopy.zeros(2, dtype=np.float32), lambda: np.zeros(2, dtype=np.float32)),
+        # selections with infinite operands (an "unbounded" bound): the finite operand comes back
+        ('minimum:inf', lambda: algopy.minimum(np.where(x > 0.5, np.inf, x), y), lambda: np.minimum(np.where(x > 0.5, np.inf, x), y)),
+        ('maximum:-inf', lambda: algopy.maximum(np.where(x > 0.5, -np.inf, x), y), lambda: np.maximum(np.where(x > 0.5, -np.inf, x), y)),
         ('clip', lambda: algopy.special.botched_clip(0.3, 0.6, x), lambda: np.clip(x, 0.3, 0.6)),
     ]
     for nm, fa, fn in tests:
